@@ -143,6 +143,12 @@ def excel_rows(source_path, sheet=1):
         raise errors.DataFormatError("cannot read Excel file: %s" % error, location)
     except UnicodeError as error:
         raise errors.DataFormatError("cannot decode Excel data: %s" % error, location)
+    except (EnvironmentError, errors.CutplaceError):
+        raise
+    except Exception as error:
+        # A damaged file makes xlrd fail in many ways, for example zipfile.BadZipFile, zlib.error, KeyError,
+        # struct.error, IndexError or an XML parse error.
+        raise errors.DataFormatError("cannot read Excel file: %s: %s" % (type(error).__name__, error), location)
 
 
 def _raise_delimited_data_format_error(delimited_path, reader, error):
